@@ -125,6 +125,19 @@ void harness(void)
 #endif
 #else
     VP_ASSUME(bits >= 2 && first >= 16 && last - first + 1 >= 2 && last - first + 1 <= 16);
+    /* KNOWN FINDING burst_hdcrc_boundary (see known-findings.txt, DESIGN.md):
+     * the header checksum of a reflected CRC is transmitted most significant
+     * octet first, so a burst that covers bits on both sides of the boundary
+     * between the last block-size octet (octet 11) and the header checksum word
+     * (octets 12-13) can cancel out and go undetected. Wire format, not fixable
+     * by a patch; the region is excluded here and must still fail in the
+     * confirming run. */
+#ifdef VP_KF_burst_hdcrc_boundary
+    VP_ASSUME(!(first < 96 && last >= 96));
+#endif
+#ifdef VP_KFC_burst_hdcrc_boundary
+    VP_ASSUME(first < 96 && last >= 96);
+#endif
 #endif
 #elif defined(MODE_TRUNC)
     VP_ASSUME(in.cut < glen);
@@ -221,8 +234,12 @@ void harness(void)
     VP_WITNESS(mf.error.id == 0 && rf.type == RP_FRAME_WRITE_RESPONSE && rf.meta == RP_RESP_EUNMAPPED && rf.plen == 4,
                "C07.classify.write-error-response-with-payload-accepted.reach");
 #else
+#if defined(MODE_FLIP1) || defined(MODE_FLIP2) || defined(MODE_BURST)
+#ifndef VP_KFC_burst_hdcrc_boundary
     VP_WITNESS(mf.error.id == EPROTO && ref_is_request(rf.type), "C07.damage.payload-crc-detects.reach");
+#endif
     VP_WITNESS(mf.error.id == EILSEQ, "C07.damage.header-crc-detects.reach");
+#endif
 #if defined(MODE_FLIP1) || defined(MODE_TRUNC)
     VP_WITNESS(mf.error.id == EBADMSG, "C07.damage.header-encoding-detects.reach");
 #endif
